@@ -207,6 +207,7 @@ def run(cx, out):
     out.rule('R07.2', 'trait defaults keep their mutual definition')
     out.rule('R07.3', 'Output impls append all given bytes; push_byte == write(&[b])')
     out.rule('R07.4', 'bulk arms = one write of the whole reinterpreted slice; fallback iterates all items (with C01 R01.3)')
+    out.rule('R01.3', 'TYPE_INFO is overridden by exactly the 12 primitives with matching variants (which types may take the bulk path)')
     out.rule('R05.3', 'no Encode impl leaves all three mutually defined default methods in place')
     for cfg in lib_cfgs(cx):
         facts = cx.facts(cfg)
@@ -219,3 +220,6 @@ def run(cx, out):
         check_defaults(out, facts)
         check_sinks(out, facts)
         check_bulk(out, facts)
+        # the fake-specialisation table decides which types take the bulk path (shared with C01 R01.3)
+        from . import c01
+        c01.check_type_info(out, facts)
